@@ -8,6 +8,7 @@ into objects by the tree under test at every run, and four groups of laws are de
             == b (STRONG law; b is canonical: reference-encoded for the IP families, recorded from the wire or
             transcribed from the RFC layout for the others), then unpack(pack(o)) == o with the same index and hash
             and pack(unpack(pack(o))) == pack(o) (WEAK law, always applied as well).
+            Law 5: every member against each of its one-octet neighbours by law 4 (see neighbours()).
  2 text   : API / configuration text -> Route -> pack -> unpack -> equal object, same index/hash/pack/renderings,
             for the NLRI, for every attribute, and for the whole UPDATE (the project's own check_generation path).
  3 render : json()/str()/extensive() of the same bytes decoded in a fresh state, after every OTHER member of the
@@ -1112,7 +1113,47 @@ def nlri_member_unit(fam, tier, members):
                 add_viol(res, f'{head}:{fn}{st}:{tail}', what + f'  [{src}]', {'kind': 'nlri', 'afi': fam[0], 'safi': fam[1], 'action': action, 'hex': hx, 'pid': pid})
             if len(res['samples']) < 1 and o is not None:
                 res['samples'].append({'family': fn, 'bytes': hx, 'path-id': pid, 'object': str(o)[:120], 'json': render_nlri(o)[0]['json'][:200]})
+        neighbours(res, fam, action, hx)
     return res
+
+
+def neighbours(res, fam, action, hx):
+    """Law 5: the member against each of its one-octet neighbours (every octet of the NLRI, lowest and highest bit flipped) that ExaBGP decodes and
+    packs back to the same bytes. Where the RFC reading of the key fields tells the two apart they are two routes and never share an index. Every
+    octet of every key field is thereby shown to reach nlri.index() and Route.index()."""
+    da = ['bytes', fam[0], fam[1], action, hx, None]
+    a = build(da)
+    if a is None:
+        return
+    try:
+        ka = key_of(da, a)
+        pre_a = (bytes(a.index()), hash(a), route_index(a))
+        if pack_nlri(a, False) != bytes.fromhex(hx):
+            return
+    except Exception:  # noqa: BLE001
+        return  # reported by laws 1-4
+    b0 = bytes.fromhex(hx)
+    for i in range(len(b0)):
+        for bit in (0x01, 0x80):
+            b1 = b0[:i] + bytes([b0[i] ^ bit]) + b0[i + 1:]
+            db = ['bytes', fam[0], fam[1], action, b1.hex(), None]
+            try:
+                o, left = unpack_nlri(fam[0], fam[1], b1, action, False)
+                if o is None or left or pack_nlri(o, False) != b1:
+                    continue
+                kb = key_of(db, o)
+            except Exception:  # noqa: BLE001
+                continue
+            res['exec'] += 1
+            res['pairs'] += 1
+            if ka is None or kb is None or not key_differs(ka, kb):
+                continue
+            res['nontrivial'] += 1
+            # a neighbour need not be well formed (ExaBGP reads some length octets leniently: C03/C08 judge that), so only the law that holds for
+            # any two byte strings accepted as two routes is applied: different key, different index
+            for sig, what in pair_laws(fam, da, a, ka, db, o, kb, pre_a):
+                if sig.startswith('index-collision:'):
+                    add_viol(res, sig, what + '  [one-octet neighbour]', {'kind': 'pair', 'fam': list(fam), 'a': da, 'b': db})
 
 
 def attr_member_unit(code, members):
